@@ -10,11 +10,13 @@ IDS="$@"; [ -z "$IDS" ] && IDS=$(ls seeded | grep -v '\.')
 for ID in $IDS; do
   D="seeded/$ID"; [ -f "$D/patch.diff" ] || continue
   W=$(mktemp -d /tmp/seedrun-XXXX)
-  git -C /repo worktree add -f --detach "$W" HEAD >/dev/null 2>&1
+  # git's worktree bookkeeping is not safe against concurrent add/remove: serialise it
+  flock /tmp/.seedrun-git.lock git -C /repo worktree add -f --detach "$W" HEAD >/dev/null 2>&1
+  if [ ! -f "$W/go.mod" ]; then echo "$ID: could not create the scratch worktree"; rm -rf "$W"; continue; fi
   if ! git -C "$W" apply "$HERE/$D/patch.diff" 2>/dev/null; then
     echo "{\"seed_id\":\"$ID\",\"applies\":false,\"head\":\"$(git -C /repo rev-parse --short HEAD)\"}" > "$D/result.json"
     echo "$ID: patch does not apply to HEAD"
-    git -C /repo worktree remove --force "$W"; continue
+    flock /tmp/.seedrun-git.lock git -C /repo worktree remove --force "$W"; continue
   fi
   SUITE=$(cd "$W" && go test -vet=off -count=1 ./... 2>&1 | grep -c "^FAIL\|^--- FAIL")
   CHECKS=$(python3 -c "import json;print(' '.join(json.load(open('$D/meta.json'))['checks']))")
@@ -27,6 +29,6 @@ for ID in $IDS; do
     echo "$ID: $P exit=$RC $V" | cut -c1-200
   done
   echo "{\"seed_id\":\"$ID\",\"applies\":true,\"head\":\"$(git -C /repo rev-parse --short HEAD)\",\"suite_failures\":$SUITE,\"results\":[${RES%,}]}" > "$D/result.json"
-  git -C /repo worktree remove --force "$W"
+  flock /tmp/.seedrun-git.lock git -C /repo worktree remove --force "$W"
 done
 bin/extract /repo lean/PebblesVerif/Gen >/dev/null 2>&1
